@@ -181,11 +181,15 @@ def handle (j : Json) : R Json := do
               some (Json.mkObj [("pos", jNat p), ("calls", jNats calls),
                 ("stmt_counts", jNats (calls.map (fun i => (c.st.body.filter (fun q => q.2.src == some i)).length))),
                 ("events", jArr ((tt.filter (byCallerOf fg t)).map eventJson)),
+                -- value level (`factory_call_value_compiled`): call events whose function term is the object of input `t`
+                ("value_events", jArr (((tt.filter (fun q => trackedCall (isInAtom t) q.2))).map eventJson)),
+                ("casts_plain", Json.bool (castsPlain g fg t)),
                 ("passed_names", jStrs ((Factory.passed d.ctx ad.argIndex sig).map (·.1)))])
             | none => none
           | _, _ => none)
         pure (Json.mkObj (base ++ view ++ common g c cfg.unaryParens ++
-          [("exec_ok", Json.bool (execOK fg sched)), ("factories", jArr positions)]))
+          [("exec_ok", Json.bool (execOK fg sched)), ("factories", jArr positions),
+           ("root_stable", Json.bool (rootStable fg))]))
     | _, _ => pure (Json.mkObj (base ++ [("translated", Json.bool false)]))
   | "adapt" =>
     let spec : Adapt.Spec := {
@@ -220,6 +224,8 @@ def handle (j : Json) : R Json := do
             ("events", jArr ((tt.filter (byCallOf ag cst)).map eventJson))])
         pure (Json.mkObj (base ++ view ++ common g c cfg.unaryParens ++
           [("exec_ok", Json.bool (execOK fg sched)), ("users", jArr users),
+           -- value level (`adapter_call_value_compiled`): call events whose function term is a constant object
+           ("const_events", jArr ((tt.filter (fun q => trackedCall isConstAtom q.2)).map eventJson)),
            ("spec_kwnames", jStrs (spec.kwargs.map (·.1))), ("spec_npos", jNat spec.argShapes.length)]))
     | _, _, .error e => pure (Json.mkObj (base ++ [("translated", Json.bool false), ("decode_err", Json.str e)]))
     | _, _, _ => pure (Json.mkObj (base ++ [("translated", Json.bool false)]))
